@@ -81,20 +81,36 @@ Section Bind.
   Proof. intros H op Hop. exact (H op Hop). Qed.
 
   Lemma cons_agree_bind : cons_agree I g -> cons_agree I (bind_vars g bound).
-  Proof. intros H c d Hc. exact (H c d Hc). Qed.
+  Proof.
+    intros H c d Hc. destruct (H c d Hc) as [Hk Hd]. split; [exact Hk|].
+    intros ts s' Ht. rewrite type_app_bind in Ht. exact (Hd ts s' Ht).
+  Qed.
 End Bind.
 
 Definition hyps (I : info) (g : env) : Prop :=
   lookup_agrees I g /\ consts_unbound g /\ ops_unbound g /\ cons_agree I g.
 
+Lemma hyps_bind I g bound : binders_ok I bound -> hyps I g -> hyps I (bind_vars g bound).
+Proof.
+  intros Hb (H1 & H2 & H3 & H4).
+  split; [exact (lookup_agrees_bind I g bound Hb H1)|].
+  split; [exact (consts_unbound_bind I g bound Hb H2)|].
+  split; [exact (ops_unbound_bind g bound H3) | exact (cons_agree_bind I g bound H4)].
+Qed.
+
 Lemma reach_hyps I g e g' e' : reach I g e g' e' -> hyps I g -> hyps I g'.
 Proof.
-  induction 1 as [ | | | | | g h bs body bound g' e' Hh Hbd Hok Hr IH | g h vs body bound g' e' Hh Hbd Hok Hr IH ];
-    intro Hg; auto.
-  - apply IH. destruct Hg as (H1 & H2 & H3 & H4).
-    repeat split; [now apply lookup_agrees_bind | now apply consts_unbound_bind | apply H3 | apply H4 | apply H4].
-  - apply IH. destruct Hg as (H1 & H2 & H3 & H4).
-    repeat split; [now apply lookup_agrees_bind | now apply consts_unbound_bind | apply H3 | apply H4 | apply H4].
+  induction 1 as [ g e | g h args a g' e' Hk Hin Hr IH | g hl args a g' e' Hin Hr IH
+                 | g h t rest g' e' Hh Hr IH | g h bs body x t g' e' Hh Hin Hr IH
+                 | g h bs body bound g' e' Hh Hbd Hok Hr IH | g h vs body bound g' e' Hh Hbd Hok Hr IH ];
+    intro Hg.
+  - exact Hg.
+  - exact (IH Hg).
+  - exact (IH Hg).
+  - exact (IH Hg).
+  - exact (IH Hg).
+  - exact (IH (hyps_bind I g bound Hok Hg)).
+  - exact (IH (hyps_bind I g bound Hok Hg)).
 Qed.
 
 (* ---------- subterms of a well-sorted term are well-sorted ---------- *)
